@@ -86,7 +86,7 @@ for x in c:
 names = {"7": "TLS", "8": "WebRTC", "6": "QUIC end-to-end", "9": "manager"}
 accepted = sum(1 for x in t if len(x.split()) > 8)
 os.makedirs(os.path.join(v, "replays"), exist_ok=True)
-how = "# replay: %s c01 --replay <this file> --out-cases /dev/stdout --out-trace /dev/stderr\n" % hbin
+how = "# replay: %s --replay <this file> --out-cases /dev/stdout --out-trace /dev/stderr\n" % hbin
 rp = ""
 if fail:
     i = fail[0]
